@@ -126,6 +126,12 @@ pub struct RunStats {
     /// bit i set: form with op byte code i fired (index by `form_index`)
     pub forms: u16,
     pub max_list_len: usize,
+    /// a `KernAtIndex` instruction with an index of 256 or more fired
+    pub kern_index_ge_256: bool,
+    /// an instruction fired that the search reached by way of a SKIP of more than 2
+    pub fired_after_skip_gt_2: bool,
+    /// an instruction fired on a pair one of whose characters has code 0x00 or 0xFF
+    pub touched_00_or_ff: bool,
 }
 
 pub fn form_index(f: LigForm) -> usize {
@@ -148,6 +154,9 @@ pub enum DivergenceProof {
     RepeatedConfiguration { at_step: u64 },
     /// more ligature steps than any terminating run can take (see [`RawFont::step_bound`])
     ExceedsExactBound { bound: u64 },
+    /// the cursor stands on a pair that the caller has already proven to diverge on its own
+    /// (what happens at the cursor is a function of the pair under it, so the run diverges too)
+    ReachesDivergingPair { left: Option<u8>, right: u8 },
 }
 
 #[derive(Clone, Debug, PartialEq, Eq)]
@@ -212,6 +221,8 @@ pub struct RawFont {
     table: BTreeMap<(u16, u8), (usize, Step)>,
     /// derived: number of pairs whose first matching instruction is a ligature
     lig_pairs: usize,
+    /// derived: pairs whose first matching instruction is reached by way of a SKIP of more than 2
+    after_big_skip: BTreeSet<(u16, u8)>,
 }
 
 #[derive(Clone, Debug)]
@@ -289,6 +300,7 @@ impl RawFont {
             dev: Deviations::default(),
             table: BTreeMap::new(),
             lig_pairs: 0,
+            after_big_skip: BTreeSet::new(),
         }
         .derived()
     }
@@ -319,6 +331,7 @@ impl RawFont {
             dev: Deviations::default(),
             table: BTreeMap::new(),
             lig_pairs: 0,
+            after_big_skip: BTreeSet::new(),
         }
         .derived()
     }
@@ -332,16 +345,25 @@ impl RawFont {
     /// first instruction whose right character is y applies).
     fn derived(mut self) -> RawFont {
         let mut table = BTreeMap::new();
+        let mut after_big_skip = BTreeSet::new();
         for l in self.lefts() {
             let key = l.map(|c| c as u16).unwrap_or(256);
             let Some(start) = self.entry_of(l) else { continue };
+            let mut big = false;
             for k in self.chain(start) {
                 let ins = &self.instructions[k];
                 if let Some(step) = self.decode(ins) {
-                    table.entry((key, ins.right_char.0)).or_insert((k, step));
+                    if !table.contains_key(&(key, ins.right_char.0)) {
+                        table.insert((key, ins.right_char.0), (k, step));
+                        if big {
+                            after_big_skip.insert((key, ins.right_char.0));
+                        }
+                    }
                 }
+                big |= ins.next_instruction.map(|n| n > 2).unwrap_or(false);
             }
         }
+        self.after_big_skip = after_big_skip;
         self.lig_pairs = table.values().filter(|(_, s)| matches!(s, Step::Lig { .. })).count();
         self.table = table;
         self
@@ -465,11 +487,20 @@ impl RawFont {
         };
         let mut rest = VecDeque::new();
         rest.push_back(El::plain(right));
-        self.engine(cur, rest, None, limits, 1)
+        self.engine(cur, rest, None, limits, 1, None, false)
     }
 
     /// Run the instructions over a word as TeX's main loop does.
     pub fn run_word(&self, word: &[u8], opts: RunOptions, limits: Limits) -> Outcome {
+        self.run_word_given(word, opts, limits, None)
+    }
+
+    /// [`RawFont::run_word`] for a font some of whose pairs are known to diverge (each proven by
+    /// [`RawFont::run_pair`]): the run is cut short with `Diverges` as soon as the cursor stands
+    /// on such a pair with its rule about to fire. Exact, because the steps taken from a pair
+    /// under the cursor up to the moment the cursor passes its right symbol do not depend on what
+    /// follows that symbol; a virtual right boundary behaves like a real one until then.
+    pub fn run_word_given(&self, word: &[u8], opts: RunOptions, limits: Limits, diverging: Option<&BTreeSet<(Option<u8>, u8)>>) -> Outcome {
         let mut rest: VecDeque<El> = word.iter().map(|c| El::plain(*c)).collect();
         if rest.is_empty() {
             return Outcome::Finished { items: vec![], stats: RunStats::default() };
@@ -479,10 +510,29 @@ impl RawFont {
         } else {
             Cur::El(rest.pop_front().unwrap())
         };
-        self.engine(cur, rest, opts.right_boundary, limits, word.len() + 2)
+        self.engine(cur, rest, opts.right_boundary, limits, word.len() + 2, diverging, false)
     }
 
-    fn engine(&self, mut cur: Cur, mut rest: VecDeque<El>, mut rb: Option<u8>, limits: Limits, symbols: usize) -> Outcome {
+    /// NOT TeX: what a replacement table yields that has an entry for every pair except the
+    /// `diverging` ones (a pair whose evaluation meets a diverging pair diverges itself, so only
+    /// pairs that come under the cursor afresh are affected: they are treated as having no rule).
+    /// Used to reproduce the output of `CompiledProgram` for a program in which a listed deviation
+    /// creates a loop that TeX does not have.
+    pub fn run_word_on_partial_table(&self, word: &[u8], opts: RunOptions, limits: Limits, diverging: &BTreeSet<(Option<u8>, u8)>) -> Outcome {
+        let mut rest: VecDeque<El> = word.iter().map(|c| El::plain(*c)).collect();
+        if rest.is_empty() {
+            return Outcome::Finished { items: vec![], stats: RunStats::default() };
+        }
+        let cur = if opts.left_boundary {
+            Cur::Boundary
+        } else {
+            Cur::El(rest.pop_front().unwrap())
+        };
+        self.engine(cur, rest, opts.right_boundary, limits, word.len() + 2, Some(diverging), true)
+    }
+
+    #[allow(clippy::too_many_arguments)]
+    fn engine(&self, mut cur: Cur, mut rest: VecDeque<El>, mut rb: Option<u8>, limits: Limits, symbols: usize, diverging: Option<&BTreeSet<(Option<u8>, u8)>>, diverging_have_no_rule: bool) -> Outcome {
         let exact = self.step_bound(symbols);
         let mut out = Emit { items: vec![], lft_hit: false, rt_hit: false };
         let mut stats = RunStats::default();
@@ -501,8 +551,11 @@ impl RawFont {
                     }
                 },
             };
-            let found = self.lookup(cur.sym(), y);
-            let Some((_, step)) = found else {
+            let mut found = self.lookup(cur.sym(), y);
+            if diverging_have_no_rule && diverging.map(|d| d.contains(&(cur.sym(), y))).unwrap_or(false) {
+                found = None;
+            }
+            let Some((fired, step)) = found else {
                 // main_loop_wrapup, main_loop_move
                 out.wrapup(&cur, true, rest.is_empty());
                 match rest.pop_front() {
@@ -520,6 +573,15 @@ impl RawFont {
             if cur.inserted() || y_inserted {
                 stats.reentered = true;
             }
+            if matches!(self.instructions[fired].operation, Operation::KernAtIndex(i) if i >= 256) {
+                stats.kern_index_ge_256 = true;
+            }
+            if !self.after_big_skip.is_empty() && self.after_big_skip.contains(&(cur.sym().map(|c| c as u16).unwrap_or(256), y)) {
+                stats.fired_after_skip_gt_2 = true;
+            }
+            if matches!(cur.sym(), Some(0) | Some(0xFF)) || y == 0 || y == 0xFF {
+                stats.touched_00_or_ff = true;
+            }
             match step {
                 Step::Kern(k) => {
                     stats.kern_steps += 1;
@@ -532,7 +594,13 @@ impl RawFont {
                 }
                 Step::Lig { insert, form } => {
                     // divergence checks happen before the step is executed
-                    if rest.len() <= limits.config_len {
+                    if let Some(d) = diverging {
+                        if d.contains(&(cur.sym(), y)) {
+                            return Outcome::Diverges(DivergenceProof::ReachesDivergingPair { left: cur.sym(), right: y });
+                        }
+                    }
+                    // (with the diverging pairs given, a run that avoids them terminates: no memo needed)
+                    if diverging.is_none() && rest.len() <= limits.config_len {
                         let key = (cur.sym().map(|c| c as u16).unwrap_or(256), rest.iter().map(|e| e.c).collect::<Vec<u8>>(), rb.is_some());
                         if !seen.insert(key) {
                             return Outcome::Diverges(DivergenceProof::RepeatedConfiguration { at_step: stats.lig_steps });
@@ -625,14 +693,23 @@ pub fn spelled(items: &[Item]) -> Vec<u8> {
     v
 }
 
+/// A character code for messages: printable ASCII as it is, anything else as `\xNN`.
+pub fn show(c: u8) -> String {
+    if (0x21..0x7F).contains(&c) && c != b'\\' {
+        (c as char).to_string()
+    } else {
+        format!("\\x{:02X}", c)
+    }
+}
+
 pub fn render_items(items: &[Item]) -> String {
     let mut s = String::new();
     for i in items {
         match i {
-            Item::Char(c) => s.push(*c as char),
+            Item::Char(c) => s.push_str(&show(*c)),
             Item::Kern(k) => s.push_str(&format!("[{}]", k.0)),
             Item::Lig { c, original, left_boundary, right_boundary } => {
-                s.push_str(&format!("<{}:{}{}{}>", *c as char, if *left_boundary { "|" } else { "" }, String::from_utf8_lossy(original), if *right_boundary { "|" } else { "" }));
+                s.push_str(&format!("<{}:{}{}{}>", show(*c), if *left_boundary { "|" } else { "" }, original.iter().map(|c| show(*c)).collect::<String>(), if *right_boundary { "|" } else { "" }));
             }
         }
     }
@@ -645,7 +722,7 @@ pub fn render_font(f: &RawFont) -> String {
     for l in f.lefts() {
         let name = match l {
             None => "^".to_string(),
-            Some(c) => (c as char).to_string(),
+            Some(c) => show(c),
         };
         s.push_str(&format!("{}@{}:", name, f.entry_of(l).unwrap()));
         let chain = f.chain(f.entry_of(l).unwrap());
@@ -656,8 +733,8 @@ pub fn render_font(f: &RawFont) -> String {
             }
             let ins = &f.instructions[k];
             match f.decode(ins) {
-                Some(Step::Kern(v)) => s.push_str(&format!(" {}kern{}", ins.right_char.0 as char, v.0)),
-                Some(Step::Lig { insert, form }) => s.push_str(&format!(" {}{}{}", ins.right_char.0 as char, form_name(form), insert as char)),
+                Some(Step::Kern(v)) => s.push_str(&format!(" {}kern{}", show(ins.right_char.0), v.0)),
+                Some(Step::Lig { insert, form }) => s.push_str(&format!(" {}{}{}", show(ins.right_char.0), form_name(form), show(insert))),
                 None => s.push_str(" <stop>"),
             }
             match ins.next_instruction {
@@ -669,7 +746,7 @@ pub fn render_font(f: &RawFont) -> String {
         s.push_str("  ");
     }
     match f.right_boundary_char {
-        Some(c) => s.push_str(&format!("bchar={}", c as char)),
+        Some(c) => s.push_str(&format!("bchar={}", show(c))),
         None => s.push_str("bchar=none"),
     }
     s
